@@ -1136,7 +1136,11 @@ class Authenticated(BaseClientHandler):
         ):
             all_names.add(row[0])
         for mbox_name, attributes, child_info in results:
-            has_children = any(n.startswith(mbox_name + "/") for n in all_names)
+            # NOTE: The inbox is shown as "INBOX" but its children are stored
+            #       (and listed) under "inbox/".
+            #
+            prefix = "inbox/" if mbox_name == "INBOX" else mbox_name + "/"
+            has_children = any(n.startswith(prefix) for n in all_names)
             if has_children:
                 attributes.discard(r"\HasNoChildren")
                 attributes.add(r"\HasChildren")
